@@ -14,7 +14,9 @@ META = {
             "testing/synctest bubble (real grpc.ClientConn with the service config against a raw HTTP/2 server logging per stream the "
             "decoded messages, END_STREAM, grpc-previous-rpc-attempts and virtual arrival instants); TLC validates every recorded "
             "operation / attempt / result against the specification.",
-    "note": "Sequential driver: the system is quiescent between two application operations and the server answers one virtual "
+    "note": "Concurrent programs (specs RetryGenP.cfg): SendMsg of a second goroutine is parked between its transport write and "
+            "re-taking cs.mu; the receiver's Header/RecvMsg replaces the attempt meanwhile; I_Replay is judged on what the final "
+            "attempt receives. Otherwise sequential driver: the system is quiescent between two application operations and the server answers one virtual "
             "millisecond after its trigger, which makes the number of attempts per operation deterministic. Fewer attempts than the "
             "model (a retry not taken) is drift, not a violation (the property is a safety property). The never-sent (admission "
             "failure) transparent retry path is not driven.",
@@ -26,6 +28,12 @@ def run(ctx):
     ctx.neg("RetryMC", "RetryNeg1.cfg", expect="I_NoViol", workers=2)
     ctx.neg("RetryMC", "RetryNeg2.cfg", expect="I_Bound", workers=2)
     behs = _retry.generate(ctx, ctx.pick("RetryGen.cfg", "RetryGenT.cfg"), ctx.pick(1500, 12000), ctx.pick(300, 3000))
+    # concurrent client programs: a sender goroutine whose SendMsg is parked after its transport write (stats.Handler
+    # gate) while the receiver goroutine sees the failure and replaces the attempt; resumed alone or while the receiver
+    # is blocked on the new attempt
+    behs += _retry.generate(ctx, "RetryGenP.cfg", ctx.pick(400, 4000), 0,
+                            keep=lambda b: any(o["op"] == "park" for o in b["ops"]),
+                            rank=lambda b: 2 * any(o["op"] == "unpark" and o["inline"] for o in b["ops"]) + min(len(b["scripts"]), 3) / 4.0)
     tpath = _retry.execute(ctx, behs, "c18")
     for b in behs:
         ctx.count(b, nontrivial=_retry.nontrivial(b))
